@@ -237,7 +237,8 @@ read:
 	}
 
 	ccr := cc.concurrentRequests.Add(1)
-	if ccr > e.maxConcurrent { // Too many concurrent requests.
+	if ccr > e.maxConcurrent || // Too many concurrent requests.
+		e.r.limiterAllowN(cc.remoteAddr.Addr(), costTCPQuery) != nil {
 		resp := mustHaveRespB(m, nil, dnsmsg.RCodeRefused, true, 0)
 		c.Write(resp)
 		cc.concurrentRequests.Add(-1)
